@@ -1,5 +1,5 @@
 (* Driver of the extracted compiled-runtime model. stdin: <ninst> then per instance the integers written by
-   harness/compiled_worker.py:export_instance.  Output per instance: INST i / CHECK b / CHECKSYM b / CHECKSYM_SMALLER b /
+   harness/compiled_worker.py:export_instance.  Output per instance: INST i / CHECK b / NMONO n / TTMATCH b / CHECKMONO b / TTCHECK b / CHECKSYM b / CHECKSYM_SMALLER b /
    NEED c v / WIN c k n (seq sent recv)* / ROW node seq ts state out nwins (len (seq sent recv pay)* )* *)
 open Cmodel
 let rec nat_of_int n = if n <= 0 then O else S (nat_of_int (n-1))
@@ -36,6 +36,9 @@ let instance idx =
     { s_kind = nat_of_int kind; s_gen = nat_of_int gen; s_cells = cells }) in
   let sizes = List.init nn (fun _ -> z ()) in
   let p0 = next () in let n = next () in
+  let nm = next () in
+  let mono = List.init nm (fun _ -> let k = next () in let sq = z () in let pt = next () in let sl = next () in
+                 { m_kind = nat_of_int k; m_seq = sq; m_part = nat_of_int pt; m_slot = nat_of_int sl }) in
   let i = { i_nodes = nodes; i_conns = conns; i_sup = nat_of_int sup; i_verts = verts; i_edges = edges;
             i_slots = slots; i_ngen = nat_of_int ngen; i_nparts = nat_of_int nparts } in
   Printf.printf "INST %d\n" idx;
@@ -44,6 +47,12 @@ let instance idx =
   Printf.printf "CHECKREPLAY %d\n" (if check_replay i sizes (nat_of_int p0) (nat_of_int n) then 1 else 0);
   Printf.printf "EXTRAOK %d\n" (if extra_ok i then 1 else 0);
   Printf.printf "SCHEDOK %d\n" (if sched_ok i (nat_of_int p0) (nat_of_int n) then 1 else 0);
+  (* to_timings: the model's schedule built from the partitioner's monomorphism vs the Timings rex built; the partitioner contract;
+     check_schedule of the MODEL's schedule (to_timings_valid says CHECKMONO 1 implies TTCHECK 1) *)
+  Printf.printf "NMONO %d\n" nm;
+  Printf.printf "TTMATCH %d\n" (if to_timings_matches i mono then 1 else 0);
+  Printf.printf "CHECKMONO %d\n" (if check_mono i (tmpl_of i) mono then 1 else 0);
+  Printf.printf "TTCHECK %d\n" (if check_schedule (set_slots i (to_timings i (tmpl_of i) mono)) then 1 else 0);
   let small = List.map (fun z -> z_of_int (max 1 (int_of_z z - 1))) sizes in
   Printf.printf "CHECKSYM_SMALLER %d\n" (if check_sym i small (nat_of_int p0) (nat_of_int n) then 1 else 0);
   for c = 0 to nc - 1 do Printf.printf "NEED %d %d\n" c (int_of_z (buffer_need i (nat_of_int c))) done;
